@@ -377,7 +377,17 @@ def miri_job(agg, job, tier, seed):
 
 
 def generic_job(agg, job, tier, seed):
-    """Engines that run as one process and print one JSON line (mt, laws, probe)."""
+    """Engines that run as one process and print one JSON line (mt, laws, probe). `reps`: run that many fresh processes
+    (process-wide one-shot state such as the default mailbox capacity gives one race per process)."""
+    reps = job.get("reps", (1, 1))[0 if tier == "quick" else 1]
+    for i in range(reps):
+        n_viol = len(agg.viol)
+        _generic_once(agg, job, tier, seed, first=(i == 0), reps=reps)
+        if len(agg.viol) > n_viol:
+            break
+
+
+def _generic_once(agg, job, tier, seed, first=True, reps=1):
     prop = agg.prop
     binp = build(job.get("build", "all"))
     args = [str(a) for a in job["args"][0 if tier == "quick" else 1]]
@@ -409,11 +419,12 @@ def generic_job(agg, job, tier, seed):
                 agg.notes.append("skipped: " + x)
     if d.get("notes"):
         agg.notes.extend(d["notes"])
-    if len(agg.samples) < 4:
+    if len(agg.samples) < 4 and first:
         agg.samples.extend(d.get("samples", [])[:2])
     for k, v in d.get("extra", {}).items():
         agg.extra[f"{job['engine']}.{k}"] = v
-    agg.engines.append({"engine": job["engine"], "features": job.get("build", "all"), "args": args, "executions": d.get("scenarios", 0), "wall_s": round(time.time() - t, 2)})
+    if first:
+        agg.engines.append({"engine": job["engine"], "features": job.get("build", "all"), "args": args, "executions": d.get("scenarios", 0), "processes": reps, "wall_s": round(time.time() - t, 2)})
 
 
 # ------------------------------------------------------------------------------------------------
@@ -435,9 +446,9 @@ def M(profiles, q, t, build="all", **kw):
     return d
 
 
-def P(mode, n=None):
+def P(mode, n=None, reps=(1, 1)):
     a = ["--mode", mode] + (["--n", n] if n else [])
-    return {"engine": "probe", "build": "all", "args": (a, a), "timeout": (120, 120)}
+    return {"engine": "probe", "build": "all", "args": (a, a), "timeout": (120, 120), "reps": reps}
 
 
 MIRI = {"engine": "miri", "seeds": (0, 32)}
@@ -452,7 +463,7 @@ PLANS = {
     "C06": [M(["general", "deathrace"], 6, 60), S(["kill", "backpressure", "lifecycle"], 18000, 150000, mode="diff"), S(["kill", "refs"], 12000, 60000, build="none", seed_off=1000)],
     "C07": [M(["dropspin"], 3, 20, seed_off=8), S(["refs", "idle", "lifecycle"], 18000, 150000, mode="diff"), S(["refs", "idle"], 9000, 60000, build="none", seed_off=1000)],
     "C08": [S(["idle", "kill", "traffic"], 18000, 150000), S(["idle", "kill"], 9000, 60000, build="none", seed_off=1000)],
-    "C09": [P("default"), P("set", 5), P("set", 1), P("set", 2), P("set", 7), P("set", 11), P("set", 13), P("set", 17), P("set", 19), P("set", 23), P("set", 29), P("spawn-then-set", 3), P("zero"), S(["backpressure", "traffic"], 24000, 200000), S(["backpressure"], 12000, 80000, build="none", seed_off=1000)],
+    "C09": [P("default"), P("set", 5, reps=(25, 150)), P("set", 1, reps=(25, 150)), P("set", 2, reps=(25, 150)), P("set", 7, reps=(25, 150)), P("set", 11, reps=(25, 150)), P("set", 13, reps=(25, 150)), P("set", 17, reps=(25, 150)), P("set", 19, reps=(25, 150)), P("set", 23, reps=(25, 150)), P("set", 29, reps=(25, 150)), P("spawn-then-set", 3), P("zero"), S(["backpressure", "traffic"], 24000, 200000), S(["backpressure"], 12000, 80000, build="none", seed_off=1000)],
     "C10": [LAWS, M(["blocking"], 8, 60), M(["starve"], 3, 30, seed_off=3), S(["timeouts", "kill"], 24000, 200000, mode="diff"), S(["timeouts"], 12000, 80000, build="none", seed_off=1000)],
     "C11": [MIRI, M(["spawnstorm", "abort"], 7, 60), M(["readers"], 4, 40, seed_off=9), S(["refs", "lifecycle", "traffic"], 18000, 150000, mode="diff"), S(["refs", "kill"], 9000, 60000, build="none", seed_off=1000)],
     "C12": [MIRI, S(["faults"], 30000, 250000), S(["deadlock"], 15000, 100000), S(["faults"], 12000, 80000, build="none", seed_off=1000)],
